@@ -352,6 +352,29 @@ def check_operators(tid, desc, lib, rk_cfg, acc, tier):
                                       '%s %s %s/%s: %s tree=%s' % (ver, lib, what, frag, src, G.to_xml(desc)),
                                       {'expected': [list(map(str, r)) for r in want[1]], 'observed': repr(got)[:300]},
                                       dict(case_base, kind='set', ver=ver, src=src, s1=s1, s2=s2, op=op))
+                # operands that are not duplicate-free and not in document order: (S1, S2, S1), a variable holding the
+                # nodes of S1 reversed and twice, and the parents of S1 (one parent per child)
+                lefts = [('(%s, %s, %s)' % (s1, s2, s1), set(A) | set(Bm), None)]
+                if A:
+                    dup = [n for n in [by_idx[i] for i in reversed(A)] + [by_idx[i] for i in A] if n.ref in ref2node]
+                    if len(dup) == 2 * len(A):
+                        lefts.append(('$v', set(A), {'v': [ref2node[n.ref] for n in dup]}))
+                    par = {by_idx[i].parent.idx for i in A if by_idx[i].parent is not None and not by_idx[i].parent.hidden}
+                    lefts.append(('(for $x in %s return $x/..)' % s1, par, None))
+                for lsrc, lset, lvars in lefts:
+                    if lsrc.startswith('(for') and any(by_idx[i].kind == 'document' for i in A):
+                        continue
+                    for op, exp in (('union', sorted(lset | set(Bm))), ('intersect', sorted(lset & set(Bm))), ('except', sorted(lset - set(Bm)))):
+                        src = '%s %s %s' % (lsrc, op, s2)
+                        got = got_refs(run(ver, src, lvars) if lvars else run(ver, src))
+                        acc.cmp()
+                        acc.case(bool(exp))
+                        want = ('ok', B.norm_ns(refs(exp)))
+                        if got != want:
+                            acc.violation('C02|set-operator|%s|%s|operand-with-duplicates' % (op, B.classify(want[1], got[1]) if got[0] == 'ok' else got[0]),
+                                          '%s %s %s/%s: %s tree=%s' % (ver, lib, what, frag, src, G.to_xml(desc)),
+                                          {'expected': [list(map(str, r)) for r in want[1]], 'observed': repr(got)[:300]},
+                                          dict(case_base, kind='set', ver=ver, src=src, s1=s1, s2=s2, op=op))
             if ver != '2.0':
                 A = msets[s1]
                 aset = set(A)
